@@ -37,6 +37,19 @@ class _Loop06(LoopCheck):
     def schedules(self, tier):
         return super().schedules(tier) + ["fixed4_cap2"]
 
+    def configs(self, tier):
+        out = LoopCheck.configs(self, tier)
+        # interrupted-and-resumed runs: the ladder of the whole (resumed from the serialised
+        # payload and from the live dictionary the callback was handed)
+        for sched in (["fixed2"] if tier == "quick" else ["fixed2", "fixed4", "adaptive_half"]):
+            for c in out:
+                if c["flow"] == "plain" and c["schedule"] == sched and not c["n_final"] and c["sampler"] == "MiniPCNSMC":
+                    c2 = dict(c)
+                    c2.update(flow="resume", routes=["bytes", "live_dict"], name=c["name"].replace("plain-", "resume-"))
+                    out.append(c2)
+                    break
+        return out
+
 
 class NullPop:
     """Population stand-in for the fixed-schedule harness: the ladder does not
